@@ -206,7 +206,7 @@ def twin(w):
 
 
 # ------------------------------------------------------------------------------------------ operation alphabet
-POSE_UNARY = ["inverse", "copy", "to_array", "to_compact", "position", "orientation", "jacobian_boxplus", "jacobian_inverse", "copy_mutate", "box_small", "box_big", "to_array_scribble", "to_compact_scribble", "held"]
+POSE_UNARY = ["inverse", "copy", "to_array", "to_compact", "position", "orientation", "jacobian_boxplus", "jacobian_inverse", "copy_mutate", "box_small", "box_big", "to_array_scribble", "to_compact_scribble", "held", "add_identity_scribble", "box_zero_scribble", "sub_identity_scribble"]
 POSE_BINARY = [
     "add", "sub", "iadd",
     "jacobian_self_oplus_other_wrt_self", "jacobian_self_oplus_other_wrt_self_compact", "jacobian_self_oplus_other_wrt_other", "jacobian_self_oplus_other_wrt_other_compact",
@@ -350,6 +350,19 @@ def apply_op(w, op, tmpdir):
                     r = getattr(p, u[: -len("_scribble")])()
                     keep = np.array(r, copy=True)
                     r[...] = r + 1.5
+                    return keep
+                return _safe(f)
+            if u in ("add_identity_scribble", "box_zero_scribble", "sub_identity_scribble"):
+                # the result of an operator is a new pose even when the other operand is neutral: writing into it leaves the operand alone
+                def f():
+                    if u == "box_zero_scribble":
+                        r = p + np.zeros(p.COMPACT_DIMENSIONALITY)
+                    elif u == "add_identity_scribble":
+                        r = p + type(p).identity()
+                    else:
+                        r = p - type(p).identity()
+                    keep = np.array(r, copy=True)
+                    r[0] += 2.5
                     return keep
                 return _safe(f)
             if u == "held":
